@@ -559,7 +559,7 @@ theorem free_merge {t : Tab} {a : AS} {L : Nat → List Nat} {k s e l r endN : N
     rw [this, hR hm]; simp
 
 /-- **`free`.**  `l`, `r`: start and end of the coalesced run. -/
-theorem free_refines {t : Tab} {a : AS} {L : Nat → List Nat} {k s e : Nat} (debug rcs : Bool)
+theorem free_refines_rel {t : Tab} {a : AS} {L : Nat → List Nat} {k s e : Nat} (debug rcs : Bool)
     (h : Rel t a L) (hk : (k : Int) < t.heads) (hp : Pre a (.free k s e)) :
     ∃ (t' : Tab) (L' : Nat → List Nat) (l r : Nat), free debug t (hd k) (s : Int) rcs = .ok (t', if rcs then (r : Int) - l else (e : Int) - s) ∧
       Rel t' (Runs.apply a (.free k s e)) L' ∧ t'.heads = t.heads ∧
